@@ -67,10 +67,8 @@ Error BaseCompiler::new_func_node(Out<FuncNode*> out, const FuncSignature& signa
   // Create FuncNode together with all the required surrounding nodes.
   FuncNode* func_node = nullptr;
   ASMJIT_PROPAGATE(new_node_t<FuncNode>(Out(func_node)));
-  ASMJIT_PROPAGATE(new_label_node(Out(func_node->_exit_node)));
-  ASMJIT_PROPAGATE(new_node_t<SentinelNode>(Out(func_node->_end), SentinelType::kFuncEnd));
 
-  // Initialize the function's detail info.
+  // Initialize the function's detail info (validates the signature before any label is created).
   Error err = func_node->detail().init(signature, environment());
   if (ASMJIT_UNLIKELY(err != Error::kOk)) {
     return report_error(err);
@@ -100,6 +98,8 @@ Error BaseCompiler::new_func_node(Out<FuncNode*> out, const FuncSignature& signa
     memset(func_node->_args, 0, func_node->arg_count() * sizeof(FuncNode::ArgPack));
   }
 
+  ASMJIT_PROPAGATE(new_label_node(Out(func_node->_exit_node)));
+  ASMJIT_PROPAGATE(new_node_t<SentinelNode>(Out(func_node->_end), SentinelType::kFuncEnd));
   ASMJIT_PROPAGATE(register_label_node(func_node));
 
   out = func_node;
